@@ -15,10 +15,12 @@ func init() {
 	register(&Prop{
 		ID:          "C18",
 		Title:       "Timeline algebra matches its mathematical meaning",
-		Explanation: "R18.1 every value CompareAscending can return is one of the constants -1, 0, 1 (value-set analysis over its returns), and on every path of its decision tree the sign agrees with the ordered comparison of seconds, then nanos. R18.2 the cut ordering tables: belowAll / aboveAll compare as least / greatest and equal only to themselves; compareValueCuts puts every value cut above belowAll and below aboveAll, otherwise orders by timestamp and, for equal timestamps, `below` before `above`; cutPeriod maps absent bounds to the unbounded cuts and both present bounds to `below` cuts (half-open periods). R18.3 PeriodsIntersect and PeriodsConnected are false for nil periods and otherwise the conjunction lower1 ? upper2 ∧ lower2 ? upper1 with a strict comparison for Intersect and a non-strict one for Connected (hence symmetric). R18.4 no exported function of pkg/time, electricpb/segmentpb and electricpb/modepb writes through its arguments (parameter-mutation analysis with callee summaries). R18.5 running minimum/maximum accumulators compare with themselves. R18.6 a segment's Length is converted to a duration only in functions that test its presence. Does NOT decide anything numerical: interval semantics over all endpoints, the step-function laws of Sum / Shift / Cut / ActiveAt.",
+		Explanation: "R18.1 every value CompareAscending can return is one of the constants -1, 0, 1 (value-set analysis over its returns), and on every path of its decision tree the sign agrees with the ordered comparison of seconds, then nanos. R18.2 the cut ordering tables: belowAll / aboveAll compare as least / greatest and equal only to themselves; compareValueCuts puts every value cut above belowAll and below aboveAll, otherwise orders by timestamp and, for equal timestamps, `below` before `above`; cutPeriod maps absent bounds to the unbounded cuts and both present bounds to `below` cuts (half-open periods). R18.3 PeriodsIntersect and PeriodsConnected are false for nil periods and otherwise the conjunction lower1 ? upper2 ∧ lower2 ? upper1 with a strict comparison for Intersect and a non-strict one for Connected (hence symmetric). R18.4 no exported function of pkg/time, electricpb/segmentpb and electricpb/modepb writes through its arguments (parameter-mutation analysis with callee summaries). R18.5 running minimum/maximum accumulators compare with themselves. R18.6 a segment's Length is converted to a duration only in functions that test its presence. R18.1 also: a path that answers 0 has settled both seconds and nanos. R18.12 MinAt reaches its candidate comparison whatever MagnitudeAt's flag says (a mode without a segment at t counts as 0). Does NOT decide anything numerical: interval semantics over all endpoints, the step-function laws of Sum / Shift / Cut / ActiveAt.",
 		Assumptions: []string{"timestamps are normalised (0 <= nanos < 1e9)"},
 		Run:         runC18,
 		Controls: []Control{
+			{Name: "later-nanos-compare-equal", File: "pkg/time/timestamp.go", Old: "\tcase t1.Nanos > t2.Nanos:\n", New: "\tcase t1.Seconds > t2.Seconds && t1.Nanos > t2.Nanos:\n", Expect: "R18.1"},
+			{Name: "minat-skips-modes-without-a-segment", File: "pkg/trait/electricpb/modepb/magnitude.go", Old: "\t\tmag, _ := MagnitudeAt(t, electricMode)\n", New: "\t\tmag, ok := MagnitudeAt(t, electricMode)\n\t\tif !ok {\n\t\t\tcontinue\n\t\t}\n", Expect: "R18.12"},
 			{Name: "mode-magnitude-through-the-active-index", File: "pkg/trait/electricpb/modepb/magnitude.go", Old: "\treturn segmentpb.MagnitudeAt(t.Sub(tOrST(t, mode)), mode.GetSegments()...)", New: "\t_, i := ActiveAt(t, mode)\n\tif i >= len(mode.GetSegments()) {\n\t\treturn 0, false\n\t}\n\treturn mode.GetSegments()[i].Magnitude, true", Expect: "R18.10"},
 			{Name: "default-start-hoisted-out-of-the-alignment-loop", File: "pkg/trait/electricpb/modepb/sum.go", Old: "\t\tfor i, mode := range modes {\n\t\t\tst := latest\n", New: "\t\tst := latest\n\t\tfor i, mode := range modes {\n", Expect: "R18.11"},
 			{Name: "revert-F67-negative-tail-dropped", File: "pkg/trait/electricpb/segmentpb/sum.go", Old: "last.Length == nil && last.Magnitude == 0", New: "last.Length == nil && last.Magnitude <= 0", Expect: "R18.9"},
@@ -50,6 +52,8 @@ func runC18(c *an.Ctx) {
 	r186(c)
 	r187(c)
 	c.Min("R18.6", 5)
+	r1812(c, "R18.12")
+	c.Min("R18.12", 1)
 	r1811(c, "R18.11")
 	c.Min("R18.11", 1)
 	r1810(c, "R18.10")
@@ -146,6 +150,13 @@ func r181(c *an.Ctx) {
 			want = int64(n)
 		}
 		if want == 9 {
+			// "equal" needs both fields: a path that answers 0 having settled only one of them calls two different
+			// instants equal in one argument order (and ordered in the other)
+			if got == 0 && (s == 9) != (n == 9) {
+				decided++
+				okSign = false
+				why = fmt.Sprintf("on the path %v the result is 0 although only one of seconds and nanos is known to be equal", l.Assign)
+			}
 			continue
 		}
 		decided++
@@ -995,6 +1006,115 @@ func r1811(c *an.Ctx, rule string) {
 	})
 	c.Check(ok && n > 0, rule, name+"|a mode is aligned by its own start time", fn.Pos(), "the start time is made afresh for every mode",
 		"the start time a mode is shifted by is carried over from the previous iteration of the alignment loop: a mode without a start time inherits the previous mode's, so the sum depends on the order of the modes")
+}
+
+// r1812: MinAt reads a mode that has no segment at t as magnitude 0 and keeps it as a candidate (its documentation
+// says so, and it is what makes the answer the minimum of the step functions, which are 0 outside their segments).
+// MagnitudeAt already answers 0 there, so the candidate comparison must be reached in every iteration whatever the
+// "is there a segment" flag says: a branch on that flag that skips the comparison never returns an ended or not yet
+// started mode, and MinAt reports a positive minimum while some mode draws nothing.
+func r1812(c *an.Ctx, rule string) {
+	fn := mustFunc(c, rule, "pkg/trait/electricpb/modepb", "", "MinAt")
+	if fn == nil {
+		return
+	}
+	name := an.FuncName(fn)
+	c.SawFunc(name)
+	n, ok := 0, true
+	an.Instrs(fn, func(in ssa.Instruction) {
+		call, isCall := in.(*ssa.Call)
+		if !isCall || !strings.HasSuffix(an.CalleeName(call), "MagnitudeAt") {
+			return
+		}
+		n++
+		var mag, flag ssa.Value
+		for _, r := range *call.Referrers() {
+			if e, isE := r.(*ssa.Extract); isE {
+				if e.Index == 0 {
+					mag = e
+				} else {
+					flag = e
+				}
+			}
+		}
+		if mag == nil {
+			ok = false
+			return
+		}
+		// the candidate comparisons: ordered comparisons that read the magnitude
+		var cmps []*ssa.BasicBlock
+		an.Instrs(fn, func(in2 ssa.Instruction) {
+			bo, isB := in2.(*ssa.BinOp)
+			if !isB || (bo.Op != token.LSS && bo.Op != token.GTR && bo.Op != token.LEQ && bo.Op != token.GEQ) {
+				return
+			}
+			for _, op := range []ssa.Value{bo.X, bo.Y} {
+				for _, s := range an.Sources(op) {
+					if s == mag {
+						cmps = append(cmps, bo.Block())
+					}
+				}
+			}
+		})
+		if len(cmps) == 0 {
+			ok = false
+			return
+		}
+		if flag == nil {
+			return
+		}
+		// every branch on the flag: both arms still reach a candidate comparison without starting the next iteration
+		an.Instrs(fn, func(in2 ssa.Instruction) {
+			iff, isIf := in2.(*ssa.If)
+			if !isIf {
+				return
+			}
+			onFlag := false
+			for _, s := range an.Sources(iff.Cond) {
+				if s == flag {
+					onFlag = true
+				}
+			}
+			if !onFlag {
+				return
+			}
+			for _, succ := range iff.Block().Succs {
+				reach := false
+				for _, cb := range cmps {
+					if reachesAvoiding(succ, cb, call.Block()) {
+						reach = true
+					}
+				}
+				if !reach {
+					ok = false
+				}
+			}
+		})
+	})
+	c.Check(ok && n > 0, rule, name+"|a mode without a segment at t stays a candidate", fn.Pos(), "the magnitude comparison is reached whatever MagnitudeAt's flag says",
+		"a branch on MagnitudeAt's \"there is a segment\" flag skips the candidate comparison: an ended or not yet started mode (magnitude 0) is never returned, so MinAt reports a positive minimum although a mode draws nothing, and nil when no mode is active")
+}
+
+// reachesAvoiding: there is a path from a to b that does not pass through avoid (a itself may be b).
+func reachesAvoiding(a, b, avoid *ssa.BasicBlock) bool {
+	seen := map[*ssa.BasicBlock]bool{}
+	var visit func(x *ssa.BasicBlock) bool
+	visit = func(x *ssa.BasicBlock) bool {
+		if x == b {
+			return true
+		}
+		if x == avoid || seen[x] {
+			return false
+		}
+		seen[x] = true
+		for _, s := range x.Succs {
+			if visit(s) {
+				return true
+			}
+		}
+		return false
+	}
+	return visit(a)
 }
 
 // blockReaches: there is a path from a to b in the control-flow graph.
